@@ -51,11 +51,11 @@ def invalid_values(T, n=2):
         s2 = z3.Solver()
         s2.add(z3.Not(f), n_ >= -10 ** 6, n_ <= 10 ** 6)
         if str(s2.check()) == 'sat':
-            out.append(s2.model().eval(n_, model_completion=True).as_long())
+            out.append(values.canonical(s2, n_, 'int'))
         out.append('x')
     else:
         while len(out) < n + (3 if T.get('enums') else 0) and str(s.check()) == 'sat' and len(out) < 5:
-            val = lang.unescape(s.model().eval(v, model_completion=True).as_string())
+            val = lex.canonical_str(s, v)
             out.append(val)
             s.add(v != z3.StringVal(val))
     _INV[key] = out
